@@ -46,9 +46,14 @@ fn parse_seed(args: &[String]) -> u64 {
 
 fn quiet_panics() {
     // engine worker panics (e.g. injected crashes) are expected in some checks: keep stderr short
-    if std::env::var("VERIF_VERBOSE").is_err() {
+    {
         std::panic::set_hook(Box::new(|info| {
             let msg = info.to_string();
+            vcore::obs::record_panic(format!(
+                "[{}] {}",
+                std::thread::current().name().unwrap_or("?"),
+                msg.replace('\n', " ")
+            ));
             if std::env::var("VERIF_PANICS").is_ok() {
                 eprintln!("[panic in {}] {msg}", std::thread::current().name().unwrap_or("?"));
             }
